@@ -59,7 +59,7 @@ def _run_task(task):
     rng = random.Random(seed)
     out = []
     with tempfile.TemporaryDirectory(prefix="c10_", dir=tlc.scratch()) as d:
-        yml, clen = make_gene(rng, d, kind)
+        yml, clen = make_gene(rng, d, "toy" if kind == "toylq" else kind)
         gene = gen_reads.load_gene(yml, "hg19")
         for k in range(n):
             haps, planted = random_haps(rng, gene)
@@ -68,17 +68,34 @@ def _run_task(task):
             depth = rng.choice([5, 10, 10, 20, 25])
             mode = rng.choice(["sample", "sample", "tile"])
             bam = os.path.join(d, f"s{k}.bam")
+            lowq = None
+            if kind == "toylq" and "7" in gene.alleles:
+                # witness for "a structure without major candidates simply drops out": the fused allele *7 is planted with
+                # its core variant on LOW-quality bases only: the structure stage (no quality filter) keeps the fused
+                # structure, the major stage finds no allele for it, competing structures (gap > 0) still have candidates
+                core = sorted(gene.alleles["7"].func_muts)
+                haps = rng.choice([[("1", ()), ("7", core)], [("1", ()), ("1", ()), ("7", core)], [("7", core), ("7", core)]])
+                planted = [(h[0], None) for h in haps]
+                gap, mms, depth, mode, lowq = rng.choice([0.1, 0.3, 0.3]), 1, rng.choice([10, 20]), "sample", core[0]
             try:
                 s = gen_reads.simulate_sample(gene, haps, 100, depth, bam, rng, contig_len=clen, mode=mode)
+                if lowq is not None:
+                    for rd in s["reads"]:
+                        if rd.cigar and all(c[0] == 0 for c in rd.cigar) and rd.start <= lowq.pos < rd.start + len(rd.seq) \
+                                and rd.seq[lowq.pos - rd.start] == lowq.op[-1]:
+                            q = list(rd.qual) if rd.qual is not None else [40] * len(rd.seq)
+                            q[lowq.pos - rd.start] = 3
+                            rd.qual = q
+                    gen_reads.write_bam(s["bam"], gene.chr, clen, s["reads"])
             except Exception as ex:  # simulator limitation (variant crossing a segment end etc.): not a verdict
                 out.append({"tid": f"{kind}/{seed}/{k}", "skip": f"{type(ex).__name__}: {ex}"})
                 continue
             kw = dict(cn_region=s["cn_region"], genome="hg19", gap=gap, max_minor_solutions=mms)
-            if rng.random() < 0.2:
+            if kind != "toylq" and rng.random() < 0.2:
                 # a user structure that may have no matching candidates -> exercises the empty-stage errors
                 others = [c for c in gene.cn_configs if c != "1"]
                 kw["cn_solution"] = rng.choice([["1"], ["1", "1", "1"]] + [[c, c] for c in others] + [[c, "1"] for c in others])
-            if rng.random() < 0.08:
+            if kind != "toylq" and rng.random() < 0.08:
                 kw["min_coverage"] = 200  # nothing passes the filters: alleles with core variants cannot be called
             r = pipeline.run_genotype(yml, s["bam"], None if "cn_solution" in kw else s["profile_bam"], **kw)
             tid = f"{kind}/{seed}/{k}"
@@ -151,6 +168,8 @@ def run(ctx):
     tasks = []
     for i in range(14 if quick else 120):
         tasks.append((rng.randrange(1 << 30), "toy" if i % 2 == 0 else "gendb", 6 if quick else 14))
+    for i in range(2 if quick else 10):
+        tasks.append((rng.randrange(1 << 30), "toylq", 5 if quick else 10))
     runs = [r for out in par.pmap(_run_task, tasks, timeout=600 if quick else 1500,
                                   default=lambda t: [{"tid": f"watchdog/{t[0]}", "skip": "task killed by the watchdog (backend did not terminate)"}])
             for r in out]
@@ -213,7 +232,7 @@ def replay(path):
     tid = rows[0]["tid"] if rows else ""
     parts = tid.split("/")
     fresh = False
-    if len(parts) == 3 and parts[0] in ("toy", "gendb") and parts[1].isdigit() and parts[2].isdigit():
+    if len(parts) == 3 and parts[0] in ("toy", "gendb", "toylq") and parts[1].isdigit() and parts[2].isdigit():
         with aldyenv.quiet_stderr():
             out = _run_task((int(parts[1]), parts[0], int(parts[2]) + 1))
         mine = [r for r in out if r["tid"] == tid and "rows" in r]
